@@ -222,12 +222,12 @@ def make_groups(tier, seed):
                 case['t'], t2 = a, b
         case.update(op='>=', ae=rng.choice([1, 1, 0]), am=rng.choice([0, 0, 1]), sc=1,
                     lout=rng.choice([None, ['a']]), rout=rng.choice([None, ['b', 'a']]),
-                    n_jobs=rng.choice([1, 1, 2, 3]))
-        first = 'PREFIX' if ed else rng.choice(['SIZE', 'PREFIX', 'POSITION', 'OVERLAP'])
+                    n_jobs=rng.choice([1, 1, 2, 3, 6, 7, 9]))
+        first = rng.choice(['PREFIX', 'SIZE', 'POSITION']) if ed else rng.choice(['SIZE', 'PREFIX', 'POSITION', 'OVERLAP'])
         if case['meas'] == 'OVERLAP_COEFFICIENT':
             first = 'OVERLAP'
         groups.append({'case': case, 't2': t2, 'first_stage': first, 'validate': True,
-                       'n_jobs_f': rng.choice([1, 2]), 'n_jobs_m': rng.choice([1, 3]), 'src': 'random#%d' % gi})
+                       'n_jobs_f': rng.choice([1, 2, 3, 7]), 'n_jobs_m': rng.choice([1, 3, 6, 9]), 'src': 'random#%d' % gi})
     # self-joins: ONE DataFrame object passed as both tables, joined on two different string columns
     for gi in range(24 if tier == 'quick' else 120):
         tok = {'kind': 'ws', 'rs': 1}
@@ -306,7 +306,7 @@ def make_groups(tier, seed):
                 'rout': None, 'n_jobs': nj, 'L': dense_table(1, n, 'L'), 'R': dense_table(5001, n, 'R')}
         groups.append({'case': case, 't2': [4, 1] if api == 'overlap_join' else [9, 10],
                        'first_stage': 'OVERLAP' if api == 'overlap_coefficient_join' else 'SIZE',
-                       'validate': False, 'n_jobs_m': 1 + di % 2, 'src': 'dense:%s' % api})
+                       'validate': api != 'overlap_join', 'n_jobs_m': 1 + di % 2, 'src': 'dense:%s' % api})
     # long right table: more than 1 000 rows in one worker, every row with a token that occurs nowhere else, and
     # token-less rows on the left
     for li, (api, nrows, nj) in enumerate((('jaccard_join', 1500, 1),) if tier == 'quick' else
@@ -317,7 +317,7 @@ def make_groups(tier, seed):
                 't': [1, 2], 'op': '>=', 'ae': 1, 'am': 0, 'sc': 1, 'lout': None, 'rout': None, 'n_jobs': nj,
                 'L': {'cols': ['id', 's'], 'rows': lrows, 'index': None, 'strcols': ['s']},
                 'R': {'cols': ['id', 's'], 'rows': rrows, 'index': None, 'strcols': ['s']}}
-        groups.append({'case': case, 't2': [7, 10], 'first_stage': 'SIZE', 'validate': False,
+        groups.append({'case': case, 't2': [7, 10], 'first_stage': 'SIZE', 'validate': True,
                        'src': 'longright:%s:%d' % (api, nrows)})
     # bundled data
     ssj = lib.load()
@@ -380,10 +380,20 @@ def run(tier, seed):
     runner.log('E9: TLC judges %d laws and %d join traces' % (len(laws), len(apis)))
     small = [l for l in laws if len(l['A']) + len(l['B']) < 3000]
     big = [l for l in laws if len(l['A']) + len(l['B']) >= 3000]
-    lverd, lst = runner.validate(small, 'TraceLaws', 'e9l', batch=60)
-    bverd, bst = runner.validate(big, 'TraceLaws', 'e9b', batch=1, heap='4g')
+    apis_small = [a for a in apis if len(a['L']) * len(a['R']) < 2000]
+    apis_big = [a for a in apis if len(a['L']) * len(a['R']) >= 2000]
+    # the few large traces are judged in the background while the many small ones are
+    from concurrent.futures import ThreadPoolExecutor
+    with ThreadPoolExecutor(2) as ex:
+        fb = ex.submit(runner.validate, big, 'TraceLaws', 'e9b', batch=1, heap='4g')
+        fd = ex.submit(runner.validate, apis_big, 'TraceAPI', 'e9d', batch=1, heap='4g')
+        lverd, lst = runner.validate(small, 'TraceLaws', 'e9l', batch=60)
+        averd, ast = runner.validate(apis_small, 'TraceAPI', 'e9a', batch=25)
+        bverd, bst = fb.result()
+        dverd, dst = fd.result()
     lverd.update(bverd)
-    averd, ast = runner.validate(apis, 'TraceAPI', 'e9a', batch=25)
+    averd.update(dverd)
+    ast = {k: ast[k] + dst[k] for k in ('states', 'transitions')}
     gmap = dict(items)
     lmap = {l['tid']: l for l in laws}
     fails = []
@@ -405,7 +415,7 @@ def run(tier, seed):
                           'engine': 'E9'})
     for tid, v in averd.items():
         g = gmap[where[('api', tid)]]
-        for f in v['fails']:
+        for f in v['fails'][:25]:           # a dense table can have thousands of missed pairs: one replay case suffices
             fails.append({'prop': f[0], 'clause': f[1], 'detail': f[2:], 'case': g['case'], 'engine': 'E9'})
     samples = [{'src': g['src'], 'api': g['case']['api'], 't': g['case']['t'], 't2': g['t2'],
                 'first_stage': g['first_stage'], 'tok': g['case']['tok'],
